@@ -45,6 +45,8 @@ pub const HARNESSES: &[(&str, fn())] = &[
     ("c17_unwrap_value_ops", c17_kv::c17_unwrap_value_ops),
     ("c17_unwrap_exists_list", c17_kv::c17_unwrap_exists_list),
     ("c17_value_conversions", c17_kv::c17_value_conversions),
+    ("c13_command_drop_releases", c13_tasks::c13_command_drop_releases),
+    ("c13_executor_drop_releases", c13_tasks::c13_executor_drop_releases),
     ("c13_capability_executor_a", c13_tasks::c13_capability_executor_a),
     ("c13_capability_executor_b", c13_tasks::c13_capability_executor_b),
     ("c17_wire_ops_set_empty", c17_kv::c17_wire_ops_set_empty),
